@@ -10,16 +10,16 @@ import (
 )
 
 func init() {
-	register(&Rule{ID: "C08.R1", Min: 20,
+	register(&Rule{ID: "C08.R1", Min: 13,
 		Text: "NaN prologue everywhere: every exported Context method with *Decimal operands tests shouldSetAsNaN on all of its operands (first operand first) before any other read of an operand field, and returns setAsNaN with the same operands on the true edge",
 		Run:  ruleNaNPrologue})
 	register(&Rule{ID: "C08.R2", Min: 1,
 		Text: "NaN selection order in setAsNaN: every path enumerated — a signaling x wins, then a signaling y, then a quiet x, then a quiet y; a signaling source yields Form=NaN with InvalidOperation, a quiet one no flag",
 		Run:  ruleNaNSelection})
-	register(&Rule{ID: "C08.R3", Min: 25,
+	register(&Rule{ID: "C08.R3", Min: 22,
 		Text: "invalid ⇔ NaN result: every path that stores the shared NaN into the destination returns InvalidOperation, DivisionUndefined or DivisionImpossible, every raise of those stores the shared NaN, and DivisionByZero goes with the shared infinity",
 		Run:  ruleInvalidNaNPairing})
-	register(&Rule{ID: "C08.R4", Min: 8,
+	register(&Rule{ID: "C08.R4", Min: 6,
 		Text: "sign of special results: in the two-operand operations every copy of the unsigned shared infinity or of a zero into the destination is followed by a store of d.Negative computed from the operands' signs",
 		Run:  ruleSpecialSigns})
 	register(&Rule{ID: "C08.R5", Min: 1,
